@@ -86,12 +86,17 @@ def engine : RegexEngine := ⟨word, wild⟩
 
 end Glob
 
+/-- the reference instance: reference float text, the glob matcher, valid-UTF-8 identity for
+    `from_utf8_lossy`, no timestamp rendering (the driver treats events with timestamps or invalid
+    UTF-8 as outside the model) -/
+def Env.ref : Env := { F := FloatLib.ref, R := Glob.engine, lossy := id, tsText := fun _ => [] }
+
 /-! ### `Field`, `normalize_fields` -/
 
 inductive Field where
   | default (p : Str)
   | reserved (p : Str)
-  | attribute (p : Str)
+  | attr (p : Str)
   | tag (t : Str)
   deriving DecidableEq, Repr
 
@@ -108,7 +113,7 @@ def normalizeFields (value : Str) : List Field :=
   if value = defaultField then defaultFields.map Field.default
   else
     let v := value.map (fun c => if c = '@' then '.' else c)
-    if value.head? = some '@' then [.attribute v]
+    if value.head? = some '@' then [.attr v]
     else if defaultFields.contains v then [.default v]
     else if reservedAttributes.contains v then [.reserved v]
     else [.tag v]
@@ -226,7 +231,7 @@ def parseValuePath (s : Str) : PathOut := jitRun .start s
 def lookupField : Field → PathOut
   | .default p => parseValuePath p
   | .reserved p => parseValuePath p
-  | .attribute p => parseValuePath p
+  | .attr p => parseValuePath p
   | .tag _ => .ok [.field (utf8 "tags".toList)]
 
 /-! ### `Display for Value`, `string_value` -/
@@ -391,7 +396,7 @@ def filterEquals (E : Env) (field : Field) (toMatch : Str) : Build Matcher :=
       if f = tagsName then onArray (fun x => x == .bytes (utf8 toMatch))
       else fun value => stringValue E value == utf8 toMatch
     | .tag tag => onArray (fun x => x == .bytes (utf8 tag ++ colon :: utf8 toMatch))
-    | .attribute _ => fun value => stringValue E value == utf8 toMatch
+    | .attr _ => fun value => stringValue E value == utf8 toMatch
 
 /-- `VrlFilter::prefix` -/
 def filterPrefix (E : Env) (field : Field) (pfx : Str) : Build Matcher :=
@@ -424,7 +429,7 @@ def filterCompare (E : Env) (field : Field) (c : Cmp) (cv : CV) : Build Matcher 
   let rhs := utf8 (cv.toText E.F)
   withField field <|
     match field with
-    | .attribute _ => compareAttr E c cv
+    | .attr _ => compareAttr E c cv
     | .tag _ =>
       -- tag values are extracted by "key:value"; the key is not looked at
       onArray fun v => match afterColon (stringValue E v) with
